@@ -246,10 +246,13 @@ class Check:
         cov.update({k: v[:200] for k, v in self.extra_lists.items()})
         ev = {'property_id': self.pid, 'tier': self.tier, 'seed': self.seed, 'level': level, 'coverage': cov,
               'assumptions': self.assumptions, 'wall_s': round(wall, 2), 'violations': len(self.violations)}
-        os.makedirs(os.path.join(VERIF, 'evidence'), exist_ok=True)
-        tmp = os.path.join(VERIF, 'evidence', self.pid + '.json.tmp')
+        # VERIF_EVIDENCE_DIR is set only by the tools that run checks against a deliberately patched /repo (tools_with_patch.sh),
+        # so that such runs never overwrite the evidence of the unchanged tree
+        evdir = os.environ.get('VERIF_EVIDENCE_DIR') or os.path.join(VERIF, 'evidence')
+        os.makedirs(evdir, exist_ok=True)
+        tmp = os.path.join(evdir, self.pid + '.json.tmp')
         json.dump(ev, open(tmp, 'w'), indent=1, default=str)
-        os.replace(tmp, os.path.join(VERIF, 'evidence', self.pid + '.json'))
+        os.replace(tmp, os.path.join(evdir, self.pid + '.json'))
         for k, t in sorted(self.known_hits.items()):
             print('KNOWN-FINDING: property=%s %s (%s)' % (self.pid, t, k))
         for what in self.undecided[:20]:
